@@ -314,7 +314,8 @@ func cellLength(data []byte, pos int, typ byte, metadata uint16) (int, error) {
 // and return the Buffer.
 func printTimestamp(v uint32) *bytes.Buffer {
 	if v == 0 {
-		return bytes.NewBuffer(ZeroTimestamp)
+		// hand out a private copy: the caller owns (and may extend) the result
+		return bytes.NewBuffer(append([]byte(nil), ZeroTimestamp...))
 	}
 
 	t := time.Unix(int64(v), 0).Local()
